@@ -3,22 +3,52 @@
 use crate::engine::Ctx;
 use serde_json::Value;
 
-pub mod c19;
-
 pub const LEVEL: &str = "exploration";
 
-pub fn run(id: &str, ctx: &Ctx) -> Option<&'static str> {
-    match id {
-        "C19" => c19::run(ctx),
-        _ => return None,
-    }
-    Some(LEVEL)
+macro_rules! props {
+    ($( $id:literal => $m:ident ),* $(,)?) => {
+        $( pub mod $m; )*
+        pub fn run(id: &str, ctx: &Ctx) -> Option<&'static str> {
+            match id {
+                $( $id => { regress(id, ctx, $m::replay); $m::run(ctx) }, )*
+                _ => return None,
+            }
+            Some(LEVEL)
+        }
+        pub fn replay(id: &str, ctx: &Ctx, case: &Value) -> Option<&'static str> {
+            match id {
+                $( $id => $m::replay(ctx, case), )*
+                _ => return None,
+            }
+            Some(LEVEL)
+        }
+    };
 }
 
-pub fn replay(id: &str, ctx: &Ctx, case: &Value) -> Option<&'static str> {
-    match id {
-        "C19" => c19::replay(ctx, case),
-        _ => return None,
+/// Replay tier: every saved regression input of the property (minimal failing cases of defects found
+/// earlier, of seeded breakages, fuzzer artefacts) is re-run first, through the plain interpreter.
+fn regress(id: &str, ctx: &Ctx, f: fn(&Ctx, &Value)) {
+    let dir = format!("{}/regress/{}", crate::engine::VERIF_DIR, id);
+    let mut files: Vec<_> = match std::fs::read_dir(&dir) {
+        Ok(d) => d.filter_map(|e| e.ok()).map(|e| e.path()).filter(|p| p.extension().map(|x| x == "json").unwrap_or(false)).collect(),
+        Err(_) => return,
+    };
+    files.sort();
+    let mut n = 0;
+    for p in &files {
+        if let Ok(text) = std::fs::read_to_string(p) {
+            if let Ok(v) = serde_json::from_str::<Value>(&text) {
+                let case = v.get("case").cloned().unwrap_or(v);
+                f(ctx, &case);
+                n += 1;
+            }
+        }
     }
-    Some(LEVEL)
+    ctx.subspace("saved regression inputs (replay tier)", n, true);
+}
+
+props! {
+    "C17" => c17,
+    "C18" => c18,
+    "C19" => c19,
 }
